@@ -31,8 +31,8 @@ type lifeRow struct {
 type lifeOp struct {
 	Kind      string    `json:"kind"` // ingest flush start stop query merge sleep
 	Rows      []lifeRow `json:"rows,omitempty"`
-	Done      int       `json:"done,omitempty"`    // 0 nil, 1 buffered, 2 unbuffered+prompt receiver, 3 unbuffered+late receiver, 4 unbuffered abandoned
-	Ctx       int       `json:"ctx,omitempty"`     // 0 background, 1 context.WithTimeout, 2 SimCtx with timeout
+	Done      int       `json:"done,omitempty"` // 0 nil, 1 buffered, 2 unbuffered+prompt receiver, 3 unbuffered+late receiver, 4 unbuffered abandoned
+	Ctx       int       `json:"ctx,omitempty"`  // 0 background, 1 context.WithTimeout, 2 SimCtx with timeout
 	TimeoutMs int       `json:"timeout_ms,omitempty"`
 	SleepMs   int       `json:"sleep_ms,omitempty"`
 }
@@ -279,8 +279,8 @@ type lifeState struct {
 	cancels  []context.CancelFunc
 	simctxs  []*SimCtx
 
-	ds       bs.DataStore
-	fsStore  *bs.FileSystemDataStore
+	ds      bs.DataStore
+	fsStore *bs.FileSystemDataStore
 
 	maxOutstanding int
 	idCommit       map[string]int // _id -> step at which the Update referencing its file returned
